@@ -252,7 +252,7 @@ func (r *run) generate() {
 	}
 
 	// ---- E. seeded random scenarios
-	for i := 0; i < r.c.Pick(1200, 20000); i++ {
+	for i := 0; i < r.c.Pick(800, 20000); i++ {
 		r.emit(r.randomScenario(rng))
 	}
 
